@@ -20,8 +20,8 @@ func DrainedPlan(_ context.Context, infos []Info, need, total, _ int) (map[strin
 	infosCopy := make([]Info, len(infos))
 	copy(infosCopy, infos)
 	sort.Slice(infosCopy, func(i, j int) bool {
-		if infosCopy[i].Capacity < infosCopy[j].Capacity {
-			return true
+		if infosCopy[i].Capacity != infosCopy[j].Capacity {
+			return infosCopy[i].Capacity < infosCopy[j].Capacity
 		}
 		return infosCopy[i].Usage > infosCopy[j].Usage
 	})
